@@ -126,6 +126,15 @@ META = {
         rule="run = one tape: (number of connections, sequential or two interleaved sequences, per connection: pair/raw, role, compression, prior operations, ending kind; schedule). Non-trivial = every run (each closes at least one connection); distinct = distinct event-log SHA-256.",
         real=REAL + ["NetConn adapter"], stub=STUB + RAW, assumptions=COMMON_ASSUME,
     ),
+    "C19": dict(
+        level="exploration",
+        level_text="Seeded simulation of 1-3 concurrently open real endpoints (both roles, all negotiated parameter sets) each reading 1-5 JSON documents sent by a scripted raw peer as (fragmented) text messages - values from a recursive generator (objects, arrays, unicode/escaped strings, strings beyond the default read limit with the limit raised, numbers, null, bool) into interface{}, a typed struct, json.RawMessage and []byte targets - with their wsjson.Read calls interleaved by the scheduler so that pooled buffers pass between connections, followed by wsjson.Write of drawn values. Every decoded result is retained and re-marshalled at the end of the run (aliasing of a pooled buffer would change it). The last document of a connection may be truncated, malformed, followed by garbage, of the wrong type for the target, empty, or over the limit: error plus Close 1007 / 1009 at the peer. The wire must carry exactly one text message per wsjson.Write whose payload is JSON-equivalent. Sampling, not proof.",
+        level_note="JSON equivalence = equal after decoding into interface{} (encoding/json is trusted); binary messages carrying valid JSON are not asserted either way.",
+        technique="deterministic simulation: interleaved wsjson reads on several connections sharing the buffer pool, retained-result re-verification, wire decode by the reference codec",
+        design_ref="DESIGN.md 6 C19",
+        rule="run = one tape: (number of connections; per connection role, negotiation, limit, 1-5 documents with target type and fragmentation, invalid-document kind, 0-3 values to write; chunk policy; schedule). Non-trivial = every run; distinct = distinct event-log SHA-256.",
+        real=REAL + ["wsjson", "internal/bpool"], stub=STUB + RAW, assumptions=COMMON_ASSUME,
+    ),
 }
 
 NOT_APPLICABLE = [
